@@ -307,7 +307,9 @@ def handleC32 (j : Json) : Json :=
   let id := jget j "id"
   let impl := jget j "impl"
   let shareBase := jint (jget j "share")
-  let ws := (jobjList (jget j "ws")).map fun (k, w) => (k, wOfJson w)
+  -- cluster stream: workloads whose container vanished cannot be updated; all the others must be
+  let gone := (jarr (jget j "gone")).map jstr
+  let ws := ((jobjList (jget j "ws")).map fun (k, w) => (k, wOfJson w)).filter fun (k, _) => !gone.contains k
   match setNodeResourceInfo (nodeResOfJson (jget j "cap")) (nodeResOfJson (jget j "usage")) with
   | .error e => verdict id (jstr (jget impl "seterr") == e) (Json.str e) [] "invalid-node" true
   | .ok n =>
@@ -320,7 +322,9 @@ def handleC32 (j : Json) : Json :=
     let vBound := if bound.all (fun (k, e) => match ws.find? (·.1 == k) with
         | some (_, w) => mapSame e.cpuMap w.cpuMap && !e.remap
         | none => false) then [] else ["C32:bound-touched"]
-    let spec := (if remapOkB n shareBase ws out then [] else ["C32:remap"]) ++ vBound
+    let tried := (jarr (jget impl "tried")).map jstr
+    let vTried := if gone.all (fun g => tried.contains g) then [] else ["C32:engine-error-not-attempted"]
+    let spec := (if remapOkB n shareBase ws out then [] else [if gone.isEmpty then "C32:remap" else "C32:remap:after-engine-error"]) ++ vBound ++ vTried
     let nfree := (freeCores n shareBase).length
     let pre := (if jstr (jget j "cluster") != "" then "cluster-" ++ jstr (jget j "cluster") ++ ":" else "") ++ (if jbool (jget j "multi") then "multi:" else "")
     let cls := pre ++ (if ws.isEmpty then "empty" else if m.isEmpty then "all-bound" else if m.length == ws.length then "all-unbound" else "mixed") ++
